@@ -245,10 +245,10 @@ fn frame_pool(ctx: &Ctx, per_class: usize) -> Vec<Vec<u8>> {
 pub fn run_c19(ctx: &mut Ctx) -> ! {
     ctx.level = "fault_enumeration";
     let ctx = &*ctx;
-    let per_class = ctx.tier.pick(1usize, 6);
+    let per_class = ctx.tier.pick(1usize, 20);
     let pool = frame_pool(ctx, per_class);
     let pool = &pool;
-    let n_random = ctx.tier.pick(6_000u32, 150_000);
+    let n_random = ctx.tier.pick(6_000u32, 2_000_000);
     let mut st = parallel(|w, st| {
         // ---- fault enumeration on the recorded call trace
         for (fi, b) in pool.iter().enumerate() {
